@@ -42,7 +42,7 @@ for d in sorted(glob.glob(os.path.join(HERE, "seeded", "*"))):
                 sigs += o["signatures"][:2]
                 break
     print("| %s | %s | %s | %s | %s | %s | %s |" % (os.path.basename(d), ", ".join(os.path.basename(f) for f in m.get("files", [])), m.get("trigger", "")[:160].replace("|", "\\|").replace("\n", " "),
-                                   m.get("first_run", "?"), ", ".join(caught) or "**missed**", "; ".join("`%s`" % s[:60] for s in sigs[:2]), m.get("strengthening", "")))
+                                   m.get("first_run", "?"), ("no longer a violation (neutralised by a repair)" if m.get("neutralised") else (", ".join(caught) or "**missed**")), "; ".join("`%s`" % s[:60] for s in sigs[:2]), m.get("strengthening", "")))
 
 if WRITE:
     text, sys.stdout = sys.stdout.getvalue(), _out
